@@ -41,6 +41,14 @@ def run_native(scenario, timeout=10.0, profile='debug', hooks=False):
             'stderr': (p.stderr.decode('utf-8', 'replace')[-500:] if status != 'hang' else '')}
 
 
+_ELAPSED = re.compile(r'\d+ seconds? \d+ microseconds ')
+
+
+def norm_out(s):
+    """time(...) prints the measured duration: the digits differ from run to run (and the executor's clock is a stub)"""
+    return _ELAPSED.sub('<elapsed> ', s)
+
+
 def compare(mine_obs, mine_outs, nat):
     """compare mirsym-concrete observations with native ones; returns list of mismatch descriptions"""
     bad = []
@@ -55,5 +63,5 @@ def compare(mine_obs, mine_outs, nat):
             if not same: bad.append('op %d: mirsym %r vs native %r' % (i, a[:200], b[:200]))
             break
         if a != b: bad.append('op %d: mirsym %r vs native %r' % (i, a[:300], b[:300]))
-        if o != bo: bad.append('op %d: output mirsym %r vs native %r' % (i, o[:300], bo[:300]))
+        if norm_out(o) != norm_out(bo): bad.append('op %d: output mirsym %r vs native %r' % (i, o[:300], bo[:300]))
     return bad
